@@ -1,4 +1,7 @@
 import Qentem.Proofs.NumToStrText17
+import Qentem.Proofs.NumToStrText9
+import Qentem.Proofs.StrToNumValue
+import Qentem.Props.C11Float
 /-! C11 closed for doubles; reduction for floats.
 
 `Props/C11Parser.lean` (parser area) proves `parseDouble t = readBits64 t` for `Text17 t` with the 1/32-ulp margin
@@ -134,5 +137,112 @@ theorem roundtrip9_of_close (parseD : List Nat → Option Nat) (h : ParsesClose9
     rcases this with rfl | rfl
     · simp only [h.2.1, Option.bind_some]; decide +kernel
     · simp only [h.2.2, Option.bind_some]; decide +kernel
+
+/-! ### floats, closed -/
+
+/-- **`parsesClose9`: the real parser model satisfies `ParsesClose9`** — on the `%.9g` text of every finite non-zero
+float, `StringToNumber` (as modelled) returns a finite double with the float's sign whose value is within
+`3·2^-27` float ulp (≤ 1/64) of the text's exact value: the text is a `Text17` (`shape9_format`), the parser is within
+one double ulp of the correctly rounded double on every such text (`parse_close17`, every mantissa), one double ulp is
+`2^-29` float ulp or less (`close_value`). -/
+theorem parsesClose9 : ParsesClose9 parseDouble := by
+  refine ⟨?_, by decide +kernel, by decide +kernel⟩
+  intro b hb hnz m d hread
+  obtain ⟨m2, d2, hd2, hread2, hV, _, _⟩ := margin9 b hb.1 hb.2 hnz
+  rw [hread] at hread2
+  have hmm : m = m2 ∧ d = d2 := by
+    injection hread2 with h1; injection h1 with _ h2; injection h2 with h3 h4; exact ⟨h3, h4⟩
+  obtain ⟨rfl, rfl⟩ := hmm
+  have hdq : (0 : ℚ) < d := by exact_mod_cast hd2
+  -- the float's magnitude and ulp
+  obtain ⟨σ, hσ⟩ : ∃ σ : Nat, σ = sigField 23 8 b := ⟨_, rfl⟩
+  obtain ⟨ε, hε⟩ : ∃ ε : Nat, ε = expField 23 8 b := ⟨_, rfl⟩
+  have hfield : (b / 2 ^ 23) % 2 ^ 8 < 2 ^ 8 := Nat.mod_lt _ (by decide)
+  have hfrac : b % 2 ^ 23 < 2 ^ 23 := Nat.mod_lt _ (by decide)
+  have hσ1 : 1 ≤ σ ∧ σ < 2 ^ 24 := by
+    rw [hσ]; unfold sigField
+    split
+    · rename_i h0
+      rcases hnz with h | h
+      · exact absurd h0 h
+      · omega
+    · omega
+  have hε1 : 1 ≤ ε ∧ ε ≤ 254 := by
+    rw [hε]; unfold expField
+    have := hb.2
+    split <;> omega
+  have hmag : magQ 23 8 b = (σ : ℚ) * ulpQ 23 8 b := by unfold magQ ulpQ; rw [hσ]
+  have hulp : ulpQ 23 8 b = 2 ^ ((ε : Int) - 150) := by
+    unfold ulpQ ulpExp; rw [← hε]; congr 1; norm_num; ring
+  generalize hU : ulpQ 23 8 b = U at *
+  have hUpos : 0 < U := by rw [hulp]; positivity
+  have hUlo : (2 : ℚ) ^ (-149 : Int) ≤ U := by
+    rw [hulp]; exact zpow_le_zpow_right₀ (by norm_num) (by omega)
+  have hUhi : U ≤ 2 ^ (104 : Int) := by
+    rw [hulp]; exact zpow_le_zpow_right₀ (by norm_num) (by omega)
+  have hσq1 : (1 : ℚ) ≤ σ := by exact_mod_cast hσ1.1
+  have hσq2 : (σ : ℚ) ≤ 2 ^ 24 := by
+    have : (σ : ℚ) ≤ ((2 ^ 24 : Nat) : ℚ) := by exact_mod_cast (Nat.le_of_lt hσ1.2)
+    push_cast at this; exact this
+  rw [hmag, abs_lt] at hV
+  have hc : (2 : ℚ) ^ 23 / 10 ^ 8 ≤ 1 / 2 := by norm_num
+  have hvlo : U / 2 ≤ (m : ℚ) / d := by nlinarith [hV.1]
+  have hvhi : (m : ℚ) / d ≤ 2 ^ 25 * U := by nlinarith [hV.2]
+  have hvpos : (0 : ℚ) < (m : ℚ) / d := lt_of_lt_of_le (by positivity) hvlo
+  have hm0 : 0 < m := by
+    rcases Nat.eq_zero_or_pos m with h | h
+    · subst h; simp at hvpos
+    · exact h
+  have hr1 : (2 : ℚ) ^ (-200 : Int) ≤ (m : ℚ) / d := by
+    calc (2 : ℚ) ^ (-200 : Int) ≤ 2 ^ (-149 : Int) / 2 := by
+          rw [zpow_neg, zpow_neg, zpow_ofNat, zpow_ofNat]; norm_num
+      _ ≤ U / 2 := div_le_div_of_nonneg_right hUlo (by norm_num)
+      _ ≤ (m : ℚ) / d := hvlo
+  have hr2 : (m : ℚ) / d < 2 ^ (200 : Int) := by
+    calc (m : ℚ) / d ≤ 2 ^ 25 * U := hvhi
+      _ ≤ 2 ^ 25 * 2 ^ (104 : Int) := mul_le_mul_of_nonneg_left hUhi (by positivity)
+      _ < 2 ^ (200 : Int) := by norm_num
+  -- the parser
+  obtain ⟨neg', num', den', hrd', hden', hcase⟩ := parse_close17 _ (shape9_format b hb.1 hb.2)
+  rw [hread] at hrd'
+  have hsame : decide ((b / 2 ^ 31) % 2 = 1) = neg' ∧ m = num' ∧ d = den' := by
+    injection hrd' with h1; injection h1 with h2 h3; injection h3 with h4 h5; exact ⟨h2, h4, h5⟩
+  obtain ⟨hs, rfl, rfl⟩ := hsame
+  rcases hcase with ⟨p, hparse, _, hclose⟩ | hout
+  · obtain ⟨rn, rd, hdec, hrd, hval⟩ := StrToNum.close_value neg' m d p hm0 hd2 hr1 hr2 hclose
+    rw [← hs] at hparse hdec
+    refine ⟨_, rn, rd, hparse, hdec, hrd, le_trans hval ?_⟩
+    calc 3 * 2 ^ (-52 : Int) * ((m : ℚ) / d) ≤ 3 * 2 ^ (-52 : Int) * (2 ^ 25 * U) :=
+          mul_le_mul_of_nonneg_left hvhi (by positivity)
+      _ = (3 * 2 ^ (-52 : Int) * 2 ^ 25) * U := by ring
+      _ ≤ 1 / 64 * U := mul_le_mul_of_nonneg_right (by norm_num) (le_of_lt hUpos)
+  · exfalso
+    rcases hout with h | h
+    · have h1 : ((m * 2 ^ 1074 : Nat) : ℚ) < (d : ℚ) := by exact_mod_cast h
+      rw [Nat.cast_mul, Nat.cast_pow] at h1
+      have h2 : (m : ℚ) / d * (2 : ℚ) ^ 1074 < 1 := by
+        rw [div_mul_eq_mul_div, div_lt_one hdq]; exact_mod_cast h1
+      have e : (2 : ℚ) ^ (-200 : Int) = ((2 : ℚ) ^ 200)⁻¹ := by rw [zpow_neg, zpow_ofNat]
+      have k1 : (1 : ℚ) ≤ (m : ℚ) / d * (2 : ℚ) ^ 200 := by
+        have := mul_le_mul_of_nonneg_right hr1 (by positivity : (0 : ℚ) ≤ (2 : ℚ) ^ 200)
+        rw [e, inv_mul_cancel₀ (by positivity)] at this; exact this
+      have k2 : (m : ℚ) / d * (2 : ℚ) ^ 200 ≤ (m : ℚ) / d * (2 : ℚ) ^ 1074 :=
+        mul_le_mul_of_nonneg_left (pow_le_pow_right₀ (by norm_num) (by norm_num)) (le_of_lt hvpos)
+      exact absurd (lt_of_le_of_lt (le_trans k1 k2) h2) (lt_irrefl _)
+    · have k : (m : ℚ) < (2 : ℚ) ^ (200 : Nat) * d := by
+        have := hr2; rw [zpow_ofNat, div_lt_iff₀ hdq] at this; exact this
+      have kn : m < 2 ^ 200 * d := by
+        have : ((m : Nat) : ℚ) < ((2 ^ 200 * d : Nat) : ℚ) := by rw [Nat.cast_mul, Nat.cast_pow]; exact_mod_cast k
+        exact_mod_cast this
+      have hbig : 2 ^ 200 * d ≤ (2 ^ 53 - 1) * 2 ^ 971 * d := by
+        apply Nat.mul_le_mul_right
+        calc 2 ^ 200 ≤ 1 * 2 ^ 971 := by rw [Nat.one_mul]; exact Nat.pow_le_pow_right (by decide) (by decide)
+          _ ≤ (2 ^ 53 - 1) * 2 ^ 971 := Nat.mul_le_mul_right _ (by decide)
+      exact Nat.lt_irrefl _ (Nat.lt_trans h (Nat.lt_of_lt_of_le kn hbig))
+
+/-- **C11 for floats, closed — `roundtrip9`**: for every finite float, `NumberToString` with 9 significant digits (as
+modelled) raises no fault, and `StringToNumber` (as modelled) followed by the callers' narrowing `float(double)`
+(round to nearest even) returns the original bit pattern. -/
+theorem roundtrip9 : RoundTrip9 (fun t => (parseDouble t).bind narrow32) := roundtrip9_of_close parseDouble parsesClose9
 
 end Qentem.Props.C11
